@@ -20,6 +20,8 @@ class Add(Op):
     name = "add"
     shard = None
     sign = 1
+    sibling = T.tp_sibling(1)
+    sibling_rate = 0.12
 
     def gen(self, rng, tier, boost):
         n = 2500 * boost if tier == "quick" else 9000 * boost
